@@ -5,7 +5,8 @@ import SigmaVerif.Lemmas.SStr
 form, field names
 
 Property theorems only; helper lemmas and auxiliary definitions (`quoteTailOk`, `noPh`, `bsOk`,
-`fieldWf`, `atoms`, the example configurations `stdConv`, `stdStr`) are in `SigmaVerif.Lemmas.SStr`.
+`fieldWf`, `fieldQuoteOk`, `fieldEscaped`, `atoms`, the example configurations `stdConv`, `stdStr`)
+are in `SigmaVerif.Lemmas.SStr`.
 -/
 namespace SigmaVerif.Props.C05
 open SigmaVerif.SStr SigmaVerif.SStrSpec
@@ -128,16 +129,36 @@ theorem toPlain_parse (x : Str) (h : bsOk (parse x) = true) :
 
 example : bsOk (parse "a\\*b\\c*\\".toList) = true := by decide
 
-/-! ## 6. Field names -/
+/-! ## 6. Field names
 
-/-- the rendered field name is read back exactly, provided the first character of the escape string
-is itself among the escaped characters (`fieldWf`) -/
-theorem field_roundtrip (c : FieldCfg) (hwf : fieldWf c = true) (quoted : Bool) (f : Str) :
+The target's reading of a quoted name (`decodeField`, `readQuotedField`) is strict: escape-aware,
+and the first unescaped occurrence of the quote string ends the name. -/
+
+/-- The rendered field name is read back exactly — in particular nothing in the name terminates a
+quoted rendering early — provided (`fieldWf`) the first character of the escape string is itself
+among the escaped characters and (`fieldQuoteOk`, only for a name emitted between non-empty quotes)
+the quote is escaped by the configuration or does not occur in the name. -/
+theorem field_roundtrip (c : FieldCfg) (hwf : fieldWf c = true) (quoted : Bool) (f : Str)
+    (hq : fieldQuoteOk c quoted f = true) :
     decodeField c quoted (escapeAndQuoteField c quoted f) = some f :=
-  decodeField_escapeAndQuoteField c hwf quoted f
+  decodeField_escapeAndQuoteField c hwf quoted f hq
+
+/-- for a configuration that escapes its (one-character) quote, `fieldQuoteOk` holds for every
+name: the round trip is unconditional in the name, as before -/
+theorem field_roundtrip_quote_escaped (c : FieldCfg) (hwf : fieldWf c = true) (qc : Char)
+    (hcq : c.quote = some [qc]) (hesc : fieldEscaped c qc = true) (quoted : Bool) (f : Str) :
+    decodeField c quoted (escapeAndQuoteField c quoted f) = some f := by
+  refine field_roundtrip c hwf quoted f ?_
+  have hp := escNotQuotePrefix_single c qc
+  cases quoted <;> simp [fieldQuoteOk, hcq, hp, hesc]
 
 example : fieldWf { escape := some ['\\'], escapeChars := [' ', '\\'], escapeQuote := true,
                     quote := some ['`'] } = true := by decide
+example : fieldQuoteOk { escape := some ['\\'], escapeChars := [' ', '\\'], escapeQuote := true,
+                         quote := some ['`'] } true ['a', '`', 'b'] = true := by decide
+/-- a configuration that does not escape its quote still round-trips names without the quote -/
+example : fieldQuoteOk { escape := some ['\\'], escapeChars := ['\\'], escapeQuote := false,
+                         quote := some ['"'] } true ['a', ' ', 'b'] = true := by decide
 
 /-- without "the escape character is among the escaped characters" it fails -/
 theorem field_escape_needed :
@@ -145,5 +166,33 @@ theorem field_escape_needed :
       c = { escape := some ['\\'], escapeChars := [' '], escapeQuote := false, quote := none } ∧
       decodeField c false (escapeAndQuoteField c false f) ≠ some f :=
   ⟨_, ['\\', 'a'], rfl, by decide⟩
+
+/-- `fieldQuoteOk` is exact for a one-character quote: when the configuration does not escape the
+quote character and the name contains it, the quoted rendering is terminated early (for every
+well-formed configuration and every such name) -/
+theorem field_quote_needed (c : FieldCfg) (hwf : fieldWf c = true) (qc : Char)
+    (hcq : c.quote = some [qc]) (f : Str) (hq : fieldQuoteOk c true f = false) :
+    decodeField c true (escapeAndQuoteField c true f) = none :=
+  decodeField_unescaped_quote c hwf qc hcq f hq
+
+/-- witness: quote `"`, `field_escape_quote` false, `"` not in the escape class: the name `a"b` is
+rendered `"a"b"`, which the target reads as the name `a` followed by garbage — terminated early -/
+theorem field_quote_unescaped_terminates :
+    ∃ (c : FieldCfg) (f : Str),
+      c = { escape := some ['\\'], escapeChars := ['\\'], escapeQuote := false, quote := some ['"'] } ∧
+      f = ['a', '"', 'b'] ∧ fieldWf c = true ∧
+      escapeAndQuoteField c true f = ['"', 'a', '"', 'b', '"'] ∧
+      decodeField c true (escapeAndQuoteField c true f) = none ∧
+      decodeField c true (escapeAndQuoteField c true f) ≠ some f :=
+  ⟨_, _, rfl, rfl, by decide, by decide, by decide, by decide⟩
+
+/-- the same text emitted by a configuration that SHOULD escape the quote (what the implementation
+produces when it escapes the wrong quote character) is rejected by the reader, while the correct
+rendering `"a\"b"` reads back -/
+example :
+    let c : FieldCfg := { escape := some ['\\'], escapeChars := [' ', '\\'], escapeQuote := true,
+                          quote := some ['"'] }
+    decodeField c true ['"', 'a', '"', 'b', '"'] = none ∧
+    decodeField c true ['"', 'a', '\\', '"', 'b', '"'] = some ['a', '"', 'b'] := by decide
 
 end SigmaVerif.Props.C05
